@@ -219,6 +219,112 @@ def static_side(chk, tier, rng):
             replay_static(chk, fm, ed, c_, rng, rows, cols, name)
 
 
+def static_reader_side(chk, tier, rng):
+    """Rows of the static file (modulus block and lattice block permuted together) in any order: the real reader must return the same
+    physical records -- volume, its moduli and its lattice parameters stay together.  Numeric fields are opaque tokens (C17 mechanism);
+    the volume tokens carry an assumed strict order so that any ordering logic in the reader is decided by the solver."""
+    import itertools
+    import tempfile
+    import cij.io.traditional.elast_dat as ed
+    from harness.c17 import Tokens
+    from cij.util import c_
+    chk.encode(ed.read_elast_data)
+    nv = 3 if tier == "quick" else 4
+    cols = ["c11", "C12", "c_44"]
+    perms = [p for p in itertools.permutations(range(nv))]
+    if tier == "quick":
+        perms = [(0, 1, 2), (1, 2, 0), (2, 0, 1), (2, 1, 0), (0, 2, 1)]
+    for descending in (True, False):
+        for perm in perms:
+            name = "static file rows in order %s (volumes %s): records intact through read_elast_data" % (list(perm), "descending by row id" if descending else "ascending by row id")
+            ctx = new_context()
+            tk = Tokens(ctx)
+            vol = [tk.new("tV%d" % i) for i in range(nv)]
+            for i in range(nv - 1):
+                d = tk.names[vol[i]] - tk.names[vol[i + 1]]
+                ctx.assume(">", d if descending else -d)
+            ctx.assume(">", tk.names[vol[-1] if descending else vol[0]])
+            tab = [[tk.new("t_%d_%d" % (i, j)) for j in range(len(cols))] for i in range(nv)]
+            lat = [[tk.new("tL_%d_%d" % (i, a)) for a in range(3)] for i in range(nv)]
+            lines = ["comment", "%s %d %s" % (tk.new("tVref"), nv, tk.new("tMass")), "V " + " ".join(cols)]
+            lines += [" ".join([vol[r]] + tab[r]) for r in perm]
+            lines += ["lattice parameters"] + ["  ".join(lat[r]) for r in perm]
+            with tempfile.NamedTemporaryFile("w", suffix=".dat", delete=False) as fp:
+                fp.write("\n".join(lines) + "\n")
+                fn = fp.name
+            t0 = time.time()
+            fails = []
+            try:
+                with patched((ed, {"float": tk.float})):
+                    paths = X.Explorer(max_paths=64, name="C13:reader").run(lambda: ed.read_elast_data(fn))
+            except (SymError, X.PathBudgetExceeded) as e:
+                chk.inconclusive(name, str(e))
+                continue
+            finally:
+                os.unlink(fn)
+            for p in paths:
+                pc = p.path_condition()
+                if p.exception is not None:
+                    fails.append("raises %s: %s" % (type(p.exception).__name__, p.exception))
+                    continue
+                data = p.result
+                if len(data.volumes) != nv or len(data.lattice_parmeters) != nv:
+                    fails.append("%d rows / %d lattice rows returned" % (len(data.volumes), len(data.lattice_parmeters)))
+                    continue
+                seen = set()
+                for i in range(nv):
+                    src = [r for r in range(nv) if Z.prove_equal(Sym.of(data.volumes[i].volume), tk.names[vol[r]], name="C13:reader:volume", conds=pc)[0] == "unsat"]
+                    if len(src) != 1:
+                        fails.append("returned row %d is not one of the file's volumes" % i)
+                        continue
+                    r = src[0]
+                    seen.add(r)
+                    mod = data.volumes[i].static_elastic_modulus
+                    for j, cn in enumerate(cols):
+                        key = c_("".join(ch for ch in cn if ch.isdigit()))
+                        if key not in mod or Z.prove_equal(Sym.of(mod[key]), tk.names[tab[r][j]], name="C13:reader:modulus", conds=pc)[0] != "unsat":
+                            fails.append("modulus %s returned with the volume of file record %d is not that record's" % (cn, r))
+                    for a in range(3):
+                        if Z.prove_equal(Sym.of(data.lattice_parmeters[i][a]), tk.names[lat[r][a]], name="C13:reader:lattice", conds=pc)[0] != "unsat":
+                            fails.append("lattice parameter %d paired with the volume of file record %d is not that record's" % (a, r))
+                if len(seen) != nv:
+                    fails.append("a record is lost or duplicated")
+            chk.obligation(name, "unsat" if not fails else "sat", seconds=round(time.time() - t0, 2), kind="reader-structure", detail=fails[:3])
+            if fails:
+                replay_reader(chk, ed, c_, perm, descending, cols, fails[0])
+
+
+def replay_reader(chk, ed, c_, perm, descending, cols, what):
+    import tempfile
+    nv = len(perm)
+    vol = [400.0 - 20 * i if descending else 300.0 + 20 * i for i in range(nv)]
+    tab = [[100.0 * (i + 1) + 7 * j for j in range(len(cols))] for i in range(nv)]
+    lat = [[5.0 + 0.1 * i + 0.01 * a for a in range(3)] for i in range(nv)]
+    lines = ["comment", "%.3f %d %.3f" % (vol[0], nv, 100.0), "V " + " ".join(cols)]
+    lines += [" ".join(["%.3f" % vol[r]] + ["%.3f" % x for x in tab[r]]) for r in perm]
+    lines += ["lattice parameters"] + ["  ".join("%.4f" % x for x in lat[r]) for r in perm]
+    with tempfile.NamedTemporaryFile("w", suffix=".dat", delete=False) as fp:
+        fp.write("\n".join(lines) + "\n")
+        fn = fp.name
+    try:
+        d = ed.read_elast_data(fn)
+    except Exception as e:
+        chk.violation("static-file:raises", "read_elast_data raises %s: %s for rows in order %s" % (type(e).__name__, e, list(perm)), dict(lines=lines))
+        return
+    finally:
+        os.unlink(fn)
+    for i in range(len(d.volumes)):
+        r = vol.index(d.volumes[i].volume) if d.volumes[i].volume in vol else None
+        if r is None or len(d.lattice_parmeters) != nv or [round(x, 6) for x in d.lattice_parmeters[i]] != [round(x, 6) for x in lat[r]] or any(
+                d.volumes[i].static_elastic_modulus.get(c_("".join(ch for ch in cn if ch.isdigit()))) != tab[r][j] for j, cn in enumerate(cols)):
+            chk.violation("static-file:records", "static table with rows listed in order %s: the record returned for V=%s carries lattice parameters %s "
+                          "(file: %s) -- volume, moduli and lattice parameters of one row are separated" % (
+                              list(perm), d.volumes[i].volume, list(d.lattice_parmeters[i]) if len(d.lattice_parmeters) > i else None,
+                              lat[r] if r is not None else None), dict(lines=lines))
+            return
+    chk.harness_error("C13 reader: '%s' did not reproduce" % what)
+
+
 def replay_static(chk, fm, ed, c_, rng, rows, cols, name):
     nvol = len(rows)
     vols = [400.0 - 20 * i for i in range(nvol)]
@@ -264,6 +370,7 @@ def main():
     rng = random.Random(seed() + 13)
     phonon_side(chk, tier, rng)
     static_side(chk, tier, rng)
+    static_reader_side(chk, tier, rng)
     chk.bound(shape="nq=3, np=3 (thorough np=6, nv=2)", q_permutations="all of q-points 2..nq", mode_permutations="seeded, Gamma acoustic slots fixed",
               static="6 volumes, rows permuted with row 0 (strain reference) first")
     chk.stub("numpy.polyfit -> exact least squares on the concrete Vandermonde matrix (static fit); eigh -> exact lift")
